@@ -612,77 +612,85 @@ func runCase(r *h.Run, c caseT) {
 	// engine announces for it must be paired (decided at quiescence, before Stop)
 	if rng.Intn(2) == 0 {
 		mode := []string{"closed-first", "close-race"}[rng.Intn(2)]
-		pc, e := net.DialTimeout(c.Cfg.Net, ln.Addr().String(), 5*time.Second)
-		if e == nil {
-			if nbc, e2 := nbio.NBConn(pc); e2 == nil {
-				w.mu.Lock()
-				opensBefore := 0
-				for _, cr := range w.order {
-					opensBefore += len(cr.opens)
-				}
-				w.mu.Unlock()
-				var addErr error
-				if mode == "closed-first" {
-					_ = nbc.Close()
-					_, addErr = env.G.AddConn(nbc)
-				} else {
-					done := make(chan struct{})
-					d1, d2 := rng.Intn(60), rng.Intn(60)
-					go func() {
-						defer close(done)
-						time.Sleep(time.Duration(d1) * time.Microsecond)
+		// the race is tried several times per case: the window between the moment the connection
+		// gets its poller and the open notification is a few instructions wide
+		reps := 1
+		if mode == "close-race" {
+			reps = 8
+		}
+		for rep := 0; rep < reps; rep++ {
+			pc, e := net.DialTimeout(c.Cfg.Net, ln.Addr().String(), 5*time.Second)
+			if e == nil {
+				if nbc, e2 := nbio.NBConn(pc); e2 == nil {
+					w.mu.Lock()
+					opensBefore := 0
+					for _, cr := range w.order {
+						opensBefore += len(cr.opens)
+					}
+					w.mu.Unlock()
+					var addErr error
+					if mode == "closed-first" {
 						_ = nbc.Close()
-					}()
-					time.Sleep(time.Duration(d2) * time.Microsecond)
-					_, addErr = env.G.AddConn(nbc)
-					<-done
-				}
-				// drain the open notification channel entry, if one was produced
-				select {
-				case <-srv:
-				case <-time.After(20 * time.Millisecond):
-				}
-				stable := 0
-				lastCPU := h.CPUTime()
-				lastEv := int64(-1)
-				for stable < 60 {
+						_, addErr = env.G.AddConn(nbc)
+					} else {
+						done := make(chan struct{})
+						d1, d2 := rng.Intn(60), rng.Intn(60)
+						go func() {
+							defer close(done)
+							time.Sleep(time.Duration(d1) * time.Microsecond)
+							_ = nbc.Close()
+						}()
+						time.Sleep(time.Duration(d2) * time.Microsecond)
+						_, addErr = env.G.AddConn(nbc)
+						<-done
+					}
+					// drain the open notification channel entry, if one was produced
+					select {
+					case <-srv:
+					case <-time.After(20 * time.Millisecond):
+					}
+					stable := 0
+					lastCPU := h.CPUTime()
+					lastEv := int64(-1)
+					for stable < 60 {
+						w.mu.Lock()
+						cr := w.conns[nbc]
+						no, nc := 0, 0
+						if cr != nil {
+							no, nc = len(cr.opens), len(cr.closes)
+						}
+						w.mu.Unlock()
+						if no == nc {
+							break
+						}
+						ev := atomic.LoadInt64(&progress)
+						cpu := h.CPUTime()
+						if ev == lastEv && cpu-lastCPU < 3*time.Millisecond {
+							stable++
+						} else {
+							stable = 0
+						}
+						lastEv, lastCPU = ev, cpu
+						time.Sleep(50 * time.Millisecond)
+					}
 					w.mu.Lock()
 					cr := w.conns[nbc]
 					no, nc := 0, 0
 					if cr != nil {
 						no, nc = len(cr.opens), len(cr.closes)
+						cr.plan = connPlan{Origin: "add", Scenario: "owner-close-around-add"}
+						cr.appClosed = true
 					}
 					w.mu.Unlock()
-					if no == nc {
-						break
+					_ = opensBefore
+					if no != nc {
+						viol("owner-close-around-add:open-without-close", fmt.Sprintf("a connection its owner closed %s AddConn (AddConn returned %v) got %d open and %d close notifications; stable for 3 s with idle CPU", map[string]string{"closed-first": "before", "close-race": "while it called"}[mode], addErr, no, nc))
+						return
 					}
-					ev := atomic.LoadInt64(&progress)
-					cpu := h.CPUTime()
-					if ev == lastEv && cpu-lastCPU < 3*time.Millisecond {
-						stable++
-					} else {
-						stable = 0
-					}
-					lastEv, lastCPU = ev, cpu
-					time.Sleep(50 * time.Millisecond)
+					r.Seen("owner_close_around_add", fmt.Sprintf("%s/refused=%v/announced=%v", mode, addErr != nil, no > 0))
+				} else {
+					pc.Close()
 				}
-				w.mu.Lock()
-				cr := w.conns[nbc]
-				no, nc := 0, 0
-				if cr != nil {
-					no, nc = len(cr.opens), len(cr.closes)
-					cr.plan = connPlan{Origin: "add", Scenario: "owner-close-around-add"}
-					cr.appClosed = true
-				}
-				w.mu.Unlock()
-				_ = opensBefore
-				if no != nc {
-					viol("owner-close-around-add:open-without-close", fmt.Sprintf("a connection its owner closed %s AddConn (AddConn returned %v) got %d open and %d close notifications; stable for 3 s with idle CPU", map[string]string{"closed-first": "before", "close-race": "while it called"}[mode], addErr, no, nc))
-					return
-				}
-				r.Seen("owner_close_around_add", fmt.Sprintf("%s/refused=%v/announced=%v", mode, addErr != nil, no > 0))
-			} else {
-				pc.Close()
 			}
 		}
 	}
